@@ -15,6 +15,41 @@ const LOOKALIKES: &[&str] = &["Some", "None", "Ok", "Err", "Default", "Const", "
 const ODD_FIELD_NAMES: &[&str] = &["f", "fmt", "field0", "xx", "v", "prop", "func", "idx", "r#type"];
 const REPR_INTS: &[&str] = &["u8", "u16", "u32", "u64", "usize", "i8", "i16", "i32", "i64", "isize"];
 
+/// does some derive in `derives` read this variant-level attribute?
+pub fn variant_attr_consumed(derives: &[String], a: &VAttr) -> bool {
+    let has = |names: &[&str]| derives.iter().any(|d| names.contains(&d.as_str()));
+    match a {
+        VAttr::Serialize(_) | VAttr::ToString(_) => has(&["EnumString", "Display", "AsRefStr", "IntoStaticStr", "VariantNames", "EnumMessage", "ToString", "AsStaticStr"]),
+        VAttr::Disabled => has(&["EnumString", "Display", "AsRefStr", "IntoStaticStr", "EnumIter", "EnumCount", "EnumIs", "EnumTryAs", "EnumTable", "FromRepr", "EnumMessage", "EnumProperty", "ToString", "AsStaticStr"]),
+        VAttr::Default => has(&["EnumString", "Display", "ToString"]),
+        VAttr::DefaultWith | VAttr::Ci(_) => has(&["EnumString"]),
+        VAttr::Transparent => has(&["Display", "AsRefStr", "IntoStaticStr"]),
+        VAttr::Message(_) | VAttr::Detailed(_) => has(&["EnumMessage"]),
+        VAttr::Props(_) => has(&["EnumProperty"]),
+    }
+}
+
+/// does some derive in `derives` read this enum-level attribute?
+pub fn enum_attr_consumed(derives: &[String], a: &EAttr) -> bool {
+    let has = |names: &[&str]| derives.iter().any(|d| names.contains(&d.as_str()));
+    match a {
+        EAttr::SerializeAll(_) => has(&["EnumString", "Display", "AsRefStr", "IntoStaticStr", "VariantNames", "EnumMessage", "ToString", "AsStaticStr"]),
+        EAttr::Prefix(_) => has(&["Display", "AsRefStr", "IntoStaticStr", "VariantNames", "ToString", "AsStaticStr"]),
+        EAttr::Ci | EAttr::UsePhf | EAttr::ParseErr => has(&["EnumString"]),
+        EAttr::ConstIntoStr => has(&["IntoStaticStr"]),
+        EAttr::Crate(_) => true,
+    }
+}
+
+/// attributes on one variant that say contradictory things or cannot have any effect together
+pub fn contradictory(e: &EnumSpec, v: &VariantSpec) -> bool {
+    let lists_names = e.derives.iter().any(|d| d == "VariantNames" || d == "EnumMessage");
+    let named = v.has_explicit_name();
+    (v.is_default() && (v.default_with() || v.fields.iter().any(|f| f.default_with) || v.disabled() || !v.serialize().is_empty()))
+        || (v.disabled() && (v.default_with() || v.transparent() || v.attrs().any(|a| matches!(a, VAttr::Ci(_) | VAttr::Message(_) | VAttr::Detailed(_) | VAttr::Props(_))) || v.fields.iter().any(|f| f.default_with) || (named && !lists_names)))
+        || (v.transparent() && (named || v.is_default()))
+}
+
 fn plain_ident(s: &str) -> bool {
     let mut cs = s.chars();
     let first = match cs.next() {
@@ -44,6 +79,8 @@ pub fn reasons(e: &EnumSpec) -> Vec<String> {
     no(!e.macro_args.is_empty(), "item produced by macro_rules");
     no(e.generic_defaults, "generic parameter defaults");
     no(e.base_const.is_some(), "typed constant in discriminants");
+    no(e.mixed_case_overlap, "spellings of two variants deliberately equal up to case");
+    no(e.use_phf() && e.has_generics(), "use_phf on a generic enum (no effect)");
     // (attributes of the language itself - docs, lints, #[non_exhaustive], #[must_use], #[derive(Default)] - are ordinary)
     no(e.variants.is_empty() || e.variants.len() > 12, "variant count");
     no(LOOKALIKES.contains(&e.type_name().as_str()), "type name");
@@ -51,6 +88,7 @@ pub fn reasons(e: &EnumSpec) -> Vec<String> {
         no(REPR_INTS.iter().all(|i| i != rp), "compound repr");
     }
     for a in e.eattrs() {
+        no(!enum_attr_consumed(&e.derives, a), "enum-level attribute that no derive of this enum reads");
         match a {
             EAttr::SerializeAll(s) => no(!model::STYLES.contains(&s.as_str()), "style"),
             EAttr::Prefix(p) => no(p.is_empty() || !p.chars().all(|c| c.is_ascii_alphanumeric() || "_:/.-".contains(c)), "prefix"),
@@ -68,6 +106,9 @@ pub fn reasons(e: &EnumSpec) -> Vec<String> {
         no(v.fields.len() > 3, "field count");
         no(v.fields.iter().any(|f| f.name.as_deref().map_or(false, |n| ODD_FIELD_NAMES.contains(&n))), "field name");
         no(v.disabled() && v.is_default(), "disabled default variant");
+        no(contradictory(e, v), "attributes that contradict each other or cannot have an effect together");
+        no(v.attrs().any(|a| !variant_attr_consumed(&e.derives, a)), "variant-level attribute that no derive of this enum reads");
+        no(v.fields.iter().any(|f| f.default_with) && !e.derives.iter().any(|d| d == "EnumString"), "field-level default_with without EnumString");
         if let Some(d) = &v.disc {
             no(d.text.contains("BASE") || d.text.contains("_DISCRIMINANT") || d.text.contains('$'), "discriminant expression");
         }
